@@ -21,6 +21,8 @@ pub enum Probe {
     LdAbsAfter(u8),
     /// the same, then `ldindb r5, 4` with r5 = 2
     LdIndAfter(u8),
+    /// registers written, then instructions i and j of `ctx_alphabet`, then `ldabsb 6`
+    LdAbsAfter2(u8, u8),
     /// `ldabsb 0x10004` (a packet larger than 64 KiB)
     LdAbsBig,
     /// `ldindb r5, 0xfff0` with r5 = 0x14
@@ -32,6 +34,12 @@ fn probes() -> Vec<Probe> {
     for k in 0..ctx_alphabet().len() as u8 {
         v.push(Probe::LdAbsAfter(k));
         v.push(Probe::LdIndAfter(k));
+    }
+    let n = ctx_alphabet().len() as u8;
+    for i in 0..n {
+        for j in 0..n {
+            v.push(Probe::LdAbsAfter2(i, j));
+        }
     }
     v
 }
@@ -69,6 +77,9 @@ fn ctx_alphabet() -> Vec<(&'static str, Vec<I>)> {
         ("jeq r2,r3,+0", vec![i(0x1d, 2, 3, 0, 0)]),
         ("mov64 r6,r1", vec![isa::mov64r(6, 1)]),
         ("mul64 r3,r3; div64 r2,r3", vec![i(0x2f, 3, 3, 0, 0), i(0x3f, 2, 3, 0, 0)]),
+        ("stxdw [r10-512],r2", vec![i(0x7b, 10, 2, -512, 0)]),
+        ("stxdw [r10-256],r3", vec![i(0x7b, 10, 3, -256, 0)]),
+        ("stdw [r10-504],-1", vec![i(0x7a, 10, 0, -504, -1)]),
     ]
 }
 
@@ -108,6 +119,20 @@ fn probe_prog(p: Probe, a: usize, b: usize) -> Vec<I> {
                 v.push(I::new(0x50, 0, 5, 0, 4));
             }
         }
+        Probe::LdAbsAfter2(a1, a2) => {
+            v.push(isa::mov64i(2, 0x77));
+            v.push(isa::mov64i(3, 0x99));
+            v.push(isa::mov64i(4, 5));
+            v.push(isa::mov64i(0, 9));
+            v.push(isa::mov64i(5, 1));
+            v.extend(ctx_alphabet()[a1 as usize].1.iter());
+            // r1-r5 may have been clobbered by a helper call: rewrite what the next instruction reads
+            v.push(isa::mov64i(2, 0x78));
+            v.push(isa::mov64i(3, 0x9a));
+            v.push(isa::mov64i(4, 6));
+            v.extend(ctx_alphabet()[a2 as usize].1.iter());
+            v.push(I::new(0x30, 0, 0, 0, 6));
+        }
         Probe::LdAbsBig => v.push(I::new(0x30, 0, 0, 0, 0x10004)),
         Probe::LdIndBig => {
             v.push(isa::mov64i(5, 0x14));
@@ -141,7 +166,7 @@ fn applicable(kind: VmKind, p: Probe, pk: &Pkt) -> bool {
         Probe::DataEnd => matches!(kind, VmKind::Fixed(..)) && pk.len > 0,
         Probe::Len => matches!(kind, VmKind::Fixed(..)),
         Probe::LdAbs0 => !matches!(kind, VmKind::NoData) && pk.len > 0,
-        Probe::LdAbsLast | Probe::LdAbsAfter(_) | Probe::LdIndAfter(_) => !matches!(kind, VmKind::NoData) && pk.len > 6,
+        Probe::LdAbsLast | Probe::LdAbsAfter(_) | Probe::LdIndAfter(_) | Probe::LdAbsAfter2(..) => !matches!(kind, VmKind::NoData) && pk.len > 6,
         Probe::LdAbsBig | Probe::LdIndBig => !matches!(kind, VmKind::NoData) && pk.len > 0x10004,
         Probe::Stack => true,
     }
@@ -150,7 +175,7 @@ fn applicable(kind: VmKind, p: Probe, pk: &Pkt) -> bool {
 /// A packet load beyond the packet is an out-of-bounds access: compiled code may trap or (JIT:
 /// no checks) fault. Such executions are outside this property and are not run on compilers.
 fn skip_exec(kind: VmKind, eng: Eng, p: Probe, pk: &Pkt) -> bool {
-    eng != Eng::Interp && matches!(p, Probe::LdAbs0 | Probe::LdAbsLast | Probe::LdAbsAfter(_) | Probe::LdIndAfter(_) | Probe::LdAbsBig | Probe::LdIndBig) && !applicable(kind, p, pk)
+    eng != Eng::Interp && matches!(p, Probe::LdAbs0 | Probe::LdAbsLast | Probe::LdAbsAfter(_) | Probe::LdIndAfter(_) | Probe::LdAbsAfter2(..) | Probe::LdAbsBig | Probe::LdIndBig) && !applicable(kind, p, pk)
 }
 
 fn expected(kind: VmKind, p: Probe, pk: &Pkt, bufs: &[Buf; 3], mb: &Buf) -> u64 {
@@ -172,7 +197,7 @@ fn expected(kind: VmKind, p: Probe, pk: &Pkt, bufs: &[Buf; 3], mb: &Buf) -> u64 
         Probe::DataEnd => addr + pk.len as u64,
         Probe::Len => pk.len as u64,
         Probe::LdAbs0 => bufs[pk.buf].bytes()[0] as u64,
-        Probe::LdAbsLast | Probe::LdAbsAfter(_) | Probe::LdIndAfter(_) => bufs[pk.buf].bytes()[6] as u64,
+        Probe::LdAbsLast | Probe::LdAbsAfter(_) | Probe::LdIndAfter(_) | Probe::LdAbsAfter2(..) => bufs[pk.buf].bytes()[6] as u64,
         Probe::LdAbsBig | Probe::LdIndBig => bufs[pk.buf].bytes()[0x10004] as u64,
         Probe::Stack => 0x5a6b,
     }
@@ -209,7 +234,7 @@ fn group(s: &mut Sink, kind: VmKind, eng: Eng, p: Probe, thorough: bool) {
     let prog = isa::enc(&probe_prog(p, a, b));
     let (a2, b2) = (b, a); // second offset pair for set_program: swapped
     let prog2 = isa::enc(&probe_prog(p, a2, b2));
-    let class = format!("{}-{:?}", match kind { VmKind::Raw => "raw", VmKind::NoData => "nodata", VmKind::Mbuff => "mbuff", VmKind::Fixed(..) => "fixed" }, p);
+    let class = format!("{}-{:?}", match kind { VmKind::Raw => "raw", VmKind::NoData => "nodata", VmKind::Mbuff => "mbuff", VmKind::Fixed(..) => "fixed" }, p).replace(' ', "");
     let rp = json!({"kind":"ctx","vm":vm::kind_name(kind),"eng":eng.name(),"probe":format!("{p:?}")});
     let mut vmx = match AnyVm::new(kind, Some(&prog)) {
         Ok(v) => v,
@@ -266,6 +291,9 @@ fn group(s: &mut Sink, kind: VmKind, eng: Eng, p: Probe, thorough: bool) {
                 if !thorough && (i + 2 * j + 3 * k) % 3 != 0 && !(i == j || j == k) {
                     continue;
                 }
+                if matches!(p, Probe::LdAbsAfter2(..)) && !(i == j && j == k) {
+                    continue;
+                }
                 let seq = [i, j, k];
                 s.count("states", 1);
                 s.count("distinct_nontrivial", 1);
@@ -280,6 +308,9 @@ fn group(s: &mut Sink, kind: VmKind, eng: Eng, p: Probe, thorough: bool) {
         }
     }
     // set_program with new offsets between executions (fixed VM): recompile and run again
+    if matches!(p, Probe::LdAbsAfter2(..)) {
+        return;
+    }
     if let VmKind::Fixed(..) = kind {
         let kind2 = VmKind::Fixed(a2, b2);
         for i in 0..np {
@@ -348,10 +379,13 @@ pub fn run(s: &mut Sink) {
                 return;
             }
             for p in probes() {
+                if matches!(p, Probe::LdAbsAfter2(..)) && !matches!(kind, VmKind::Raw | VmKind::Mbuff | VmKind::Fixed(0x40, 0x50)) {
+                    continue;
+                }
                 let rp = json!({"kind":"ctx","vm":vm::kind_name(*kind),"eng":eng.name(),"probe":format!("{p:?}")});
                 s.mark(idx, &format!("{}/ctx", eng.name()), &rp);
                 let k = *kind;
-                crate::isaeng::run_group(s, eng, &format!("ctx-{p:?}"), &rp, move |cs| group(cs, k, eng, p, thorough));
+                crate::isaeng::run_group(s, eng, &format!("ctx-{p:?}").replace(' ', ""), &rp, move |cs| group(cs, k, eng, p, thorough));
             }
         }
     }
